@@ -11,6 +11,12 @@ namespace SpsdkVerif.FlashEnc
 open SpsdkVerif SpsdkVerif.Crypto
 open SpsdkVerif.Misc (beEnc beDec leEnc leDec)
 
+/-! ### Spec = Generated: the hardware-side CRC constant set is the one configured in the source -/
+
+@[simp] theorem crc32MpegHw_eq (d : Bytes) : crc32MpegHw d = crc32Mpeg d := by
+  have : crcMpegParams = Crc.crc32Mpeg2 := by decide
+  simp [crc32MpegHw, crc32Mpeg, this]
+
 /-! ### integer codecs -/
 
 theorem bytes_rev_ind {P : Bytes → Prop} (h0 : P []) (hs : ∀ l x, P l → P (l ++ [x])) : ∀ l, P l := by
